@@ -277,14 +277,15 @@ def check_seq(ctx):
             continue
         ds = draw_sites(S.fn)
         # the statement that draws the acceptance uniforms is the reference point of the draw order
-        acc_line = S.acc_stmt.lineno
+        # (document order of the normalised function body: line numbers are meaningless once helpers have been spliced in)
+        acc_at = S.acc_stmt
         for call, recv, kind in ds:
             if isinstance(call.func, ast.Attribute) and call.func.attr in ("uniform", "random") and _feeds_mask(S, call):
-                acc_line = A.enclosing_stmt(call).lineno
+                acc_at = A.enclosing_stmt(call)
         spawn_calls = [c for c in A.calls_in(S.fn) if (A.last_attr(c) or "").startswith("make_full_samples")]
         before = []
         for call, recv, kind in ds:
-            if A.enclosing_stmt(call).lineno < acc_line and not (isinstance(call.func, ast.Attribute) and call.func.attr in ("uniform", "random") and _feeds_mask(S, call)):
+            if A.dominates_or_before(A.enclosing_stmt(call), acc_at) and not (isinstance(call.func, ast.Attribute) and call.func.attr in ("uniform", "random") and _feeds_mask(S, call)):
                 before.append(call)
         bad = []
         for c in before:
@@ -294,7 +295,7 @@ def check_seq(ctx):
             bad.append(c)
         ctx.check(R, S.acc_stmt, "%s: acceptance uniforms are the first draw" % name, not bad,
                   "`%s` draws from the generator before the acceptance uniforms: with equal seeds this path accepts a different set than its siblings" % (A.unparse(bad[0])[:60] if bad else ""), key=name + ":first")
-        ctx.check(R, S.acc_stmt, "%s: linear-parameter generators are derived after the acceptance step" % name, all(A.enclosing_stmt(c).lineno > acc_line for c in spawn_calls),
+        ctx.check(R, S.acc_stmt, "%s: linear-parameter generators are derived after the acceptance step" % name, all(A.dominates_or_before(acc_at, A.enclosing_stmt(c)) for c in spawn_calls),
                   "make_full_samples runs before the acceptance uniforms are drawn", key=name + ":after", nontrivial=False)
         unis = [c for c, _, _ in ds if isinstance(c.func, ast.Attribute) and c.func.attr in ("uniform", "random")]
         ctx.check(R, S.acc_stmt, "%s: one uniform draw per acceptance test" % name, len(unis) == 1, "%d uniform draws" % len(unis), key=name + ":one")
